@@ -182,20 +182,20 @@ theorem transmitCf_segment (s : State) (allowed : Nat) (r0 : Req) (p : Bytes) (k
     (hv : s.cfg.valid = true) (hfr : Fresh r0 p) (hfull : Full r0 p) (hi : TxProg s r0 p k)
     (hst : s.txState = .transmitCf) :
     Advance s (s.transmitCf allowed).1 (s.transmitCf allowed).2.1 r0 p k :=
-  txFsm_prog_cf s allowed r0 p k hv hfr hi hst (Nat.le_trans (carried_le _ _ _) hfull)
+  txFsm_prog_cf_enough s allowed r0 p k hv hfr hi hst (Nat.le_trans (carried_le _ _ _) hfull)
 
 /-- (C3) One data pass of `_process_tx` from the moment the request is at the head of the queue: nothing emitted and
     the progress unchanged; or exactly frame `k` emitted and the progress advanced; or frame `k` was the last and the
     request completed; or the transfer failed (Overflow FC, N_Bs timeout, too many Wait frames): then
     `complete(False)` is logged and the FSM left the transfer. No Python exception is raised in the first three. -/
 theorem processTx_segment (s : State) (r0 : Req) (p : Bytes) (k : Nat)
-    (hv : s.cfg.valid = true) (hfr : Fresh r0 p) (hfull : Full r0 p) (h1 : 1 ≤ p.length) (hn : p.length < 4294967296)
+    (hv : s.cfg.valid = true) (hfr : Fresh r0 p) (h1 : 1 ≤ p.length) (hn : p.length < 4294967296)
     (hexc : s.exc = none) (hfc : FcOk s) (hd : fcPass s = false) (hi : TxInv0 s r0 p k) :
     Pass s s.processTx.1 s.processTx.2.1 r0 p k :=
-  processTx_pass s r0 p k hv hfr hfull h1 hn hexc hfc hd hi
+  processTx_pass s r0 p k hv hfr h1 hn hexc hfc hd hi
 
 example : Pass exState exState.processTx.1 exState.processTx.2.1 exReq exPayload 0 :=
-  processTx_segment _ _ _ _ (by decide) exFresh exFull (by decide) (by decide) rfl
+  processTx_segment _ _ _ _ (by decide) exFresh (by decide) (by decide) rfl
     (by intro h; cases h) rfl (Or.inl ⟨rfl, rfl, rfl, [], rfl⟩)
 
 /-- (C3) A pass that sends the Flow Control requested by the receive side emits that FC frame and does not touch the
@@ -219,19 +219,19 @@ theorem ops_preserve (s : State) (o : Op) (r0 : Req) (p : Bytes) (k : Nat) (hi :
     reference segmentation of `p`, in order, with the id / flags / DLC of part A — a strict prefix while the transfer
     is in flight, all of them when `complete(True)` is logged; otherwise the transfer failed at some pass. -/
 theorem frames_are_segmentation (s0 : State) (r0 : Req) (p : Bytes) (hv : s0.cfg.valid = true) (hfr : Fresh r0 p)
-    (hfull : Full r0 p) (h1 : 1 ≤ p.length) (hn : p.length < 4294967296) (steps : List Step) (s : State) (k : Nat)
+    (h1 : 1 ≤ p.length) (hn : p.length < 4294967296) (steps : List Step) (s : State) (k : Nat)
     (hl : Live s0 s) (hi : TxInv0 s r0 p k) :
     RunRes s0 r0 p k steps s :=
-  run_segment s0 r0 p hv hfr hfull h1 hn steps s k hl hi
+  run_segment s0 r0 p hv hfr h1 hn steps s k hl hi
 
 /-- the example transfer, end to end: FF, (FC from the peer), CF 1, CF 2 -/
 example : (run [.tx, .op (.rx exFc), .tx, .tx] exState).2.map (·.data) = segment (TxCfg.of exCfg exAddr) exPayload := by
   decide
 example : Ev.done 7 true ∈ (run [.tx, .op (.rx exFc), .tx, .tx] exState).1.log := by decide
-example : Live exState exState := ⟨rfl, rfl, rfl, by intro h; cases h⟩
+example : Live exState exState := ⟨rfl, rfl, rfl, (by intro h; cases h), QLog.refl _⟩
 example : RunRes exState exReq exPayload 0 [.tx, .op (.rx exFc), .tx, .tx] exState :=
-  frames_are_segmentation _ _ _ (by decide) exFresh exFull (by decide) (by decide) _ _ _
-    ⟨rfl, rfl, rfl, by intro h; cases h⟩ (Or.inl ⟨rfl, rfl, rfl, [], rfl⟩)
+  frames_are_segmentation _ _ _ (by decide) exFresh (by decide) (by decide) _ _ _
+    ⟨rfl, rfl, rfl, (by intro h; cases h), QLog.refl _⟩ (Or.inl ⟨rfl, rfl, rfl, [], rfl⟩)
 
 /-! ## D. `send()` refuses what cannot be announced -/
 
